@@ -67,7 +67,7 @@ def gen_case(seed, tier):
     fl = stream(seed, "faults")
     sc = stream(seed, "sched")
     kind = cfg.choice(["ff", "ff", "async", "reset", "pulse", "pulse", "pulse_tl"])
-    stages = cfg.choice([2, 2, 3, 4, 5])
+    stages = cfg.choice([2, 2, 3, 4, 5] + ([6, 8] if tier == "thorough" else []))
     if kind == "pulse_tl":
         # timeline mode: real clock processes with seeded integer-femtosecond periods / phases, testbenches awaiting ticks
         per = [2, 4, 6, 10, 14, 20, 50, 100, 250]
